@@ -107,6 +107,12 @@ META = {
         "assumptions": ["PARTIAL: Go's memory model beyond slices/arrays (GC, data races) is outside the model; Origin.Bytes converting its buffer in place is checked to be view-preserving by the oracle only",
                         "the theorems cover the storage lines of Insert/Embed, Rotate, Concat, FeatureSlice.Insert and Delete's table (the operations that were writing into their arguments); the other operations allocate by construction (make/copy) and are covered by the oracle"],
     },
+    "C14": {
+        "sections": ["Cli.table"],
+        "rule": "the gts binary built from the tree, with XDG_CACHE_HOME/HOME/TMPDIR in a scratch directory: ~140 option configurations over the 19 cached subcommands (all subsets of boolean options for commands with <=3 of them, a fifth of the 64 subsets for query, valued options with 2-3 values, three secondary inputs for insert/annotate/search) x inputs {GenBank record, two-record stream, FASTA, truncated GenBank, garbage}; reference = --no-cache (stdout and -o); then ONE shared cache directory through four passes (cold, warm in reverse order, -o files, -o files again) and ~370 independent histories of length 1..3 mixing succeeding and failing invocations. Compared: stdout / -o bytes and exit status; the number of cache entries after every step with the model's prediction.",
+        "assumptions": ["PARTIAL: what 'every option that changes the output is declared through flags and reaches encodePayload' means is the translator's def-use reading of cmd/gts/*.go; behaviour depending on the environment (terminal detection, unwritable cache directory) is outside the model",
+                        "hashes are abstract: the theorem concludes equality OR an explicit digest collision"],
+    },
 }
 
 
